@@ -10,7 +10,9 @@ PROPS = {"C05": dict(
               "Zrnt.Proofs.C05.htr_eq_spec", "Zrnt.Proofs.C05.htr_eq_spec_of_decode",
               "Zrnt.Proofs.C05.setMany_valid", "Zrnt.Proofs.C05.tree_root_after_sets",
               "Zrnt.Proofs.C05.tree_set_leaves", "Zrnt.Proofs.C05.htr_struct_and_view_agree_with_schema",
-              "Zrnt.Proofs.C05.seedRandao_eq", "Zrnt.Proofs.C05.fillZeroes_eq", "Zrnt.Proofs.C05.rotation_eq", "Zrnt.Proofs.C05.handwritten_htr_sound"],
+              "Zrnt.Proofs.C05.seedRandao_eq", "Zrnt.Proofs.C05.fillZeroes_eq", "Zrnt.Proofs.C05.rotation_eq", "Zrnt.Proofs.C05.handwritten_htr_sound",
+              "Zrnt.Proofs.C05.bitlist_htr_bytes", "Zrnt.Proofs.C05.bitvector_htr_bytes", "Zrnt.Proofs.C05.bytelist_htr_bytes",
+              "Zrnt.Proofs.C05.uint64list_htr_chunks", "Zrnt.Proofs.C05.uint64vector_htr_chunks"],
     modes=[dict(name="ssz"), dict(name="sszstate")],
     level="proof",
     trusted_base=TB_COMMON + TB_SSZ + [
